@@ -9,7 +9,7 @@
 use crate::patch_archive::{
     PatchArchive, PatchArchiveHeader,
     block::{FilePatch, PatchArchiveEncodingInfo, PatchFileEntry, write_key, write_uint40_be},
-    error::PatchArchiveResult,
+    error::{PatchArchiveError, PatchArchiveResult},
     header::{STANDARD_BLOCK_SIZE_BITS, STANDARD_KEY_SIZE},
 };
 use binrw::BinWrite;
@@ -298,8 +298,14 @@ fn serialize_block_data(
     let mut data = Vec::new();
 
     for entry in entries {
-        // num_patches
-        data.push(entry.patches.len() as u8);
+        // num_patches: one byte, and 0 is the end-of-block sentinel. An entry
+        // without patches would end the block for the parser and hide every
+        // entry behind it.
+        let num_patches = u8::try_from(entry.patches.len())
+            .ok()
+            .filter(|n| *n != 0)
+            .ok_or(PatchArchiveError::InvalidPatchCount(entry.patches.len()))?;
+        data.push(num_patches);
 
         // target_ckey
         write_key(&mut data, &entry.target_ckey, header.file_key_size)?;
@@ -446,6 +452,25 @@ mod tests {
         assert_eq!(entries[0].patches.len(), 2);
         assert_eq!(entries[1].target_ckey, [0x22; 16]);
         assert_eq!(entries[1].patches.len(), 1);
+    }
+
+    #[test]
+    fn test_entry_without_patches_is_rejected() {
+        let mut builder = PatchArchiveBuilder::new();
+        builder.add_file_entry([1; 16], 10, vec![([9; 16], 1, [8; 16], 1, 0)]);
+        builder.add_file_entry([2; 16], 10, vec![]);
+        builder.add_file_entry([3; 16], 10, vec![([9; 16], 1, [8; 16], 1, 0)]);
+        assert!(matches!(
+            builder.build(),
+            Err(PatchArchiveError::InvalidPatchCount(0))
+        ));
+
+        let mut builder = PatchArchiveBuilder::new().block_size_bits(16);
+        builder.add_file_entry([1; 16], 10, vec![([9; 16], 1, [8; 16], 1, 0); 256]);
+        assert!(matches!(
+            builder.build(),
+            Err(PatchArchiveError::InvalidPatchCount(256))
+        ));
     }
 
     #[test]
